@@ -22,13 +22,13 @@ func init() {
 }
 
 type chanSite struct {
-	fn    *ssa.Function // function containing the site
-	instr ssa.Instruction
-	seg   *Seg
-	ev    *Event
-	kind  string // "close", "send", "recv"
-	raw   bool
-	lossy bool
+	fn     *ssa.Function // function containing the site
+	instr  ssa.Instruction
+	seg    *Seg
+	ev     *Event
+	kind   string // "close", "send", "recv"
+	raw    bool
+	lossy  bool
 	defer_ bool
 }
 
